@@ -116,7 +116,11 @@ def run_case(case, ctx):
 			gset = ReferenceGenomeSet(key='c04', version='1', name='c04')
 			taxon = Taxon(key='t0', name='T0', distance_threshold=0.5, report=True, genome_set=gset)
 			s.add_all([gset, taxon])
-			for j, g in enumerate(genomes):
+			order = list(range(len(genomes)))
+			if case.get('shuffle_rows', True):
+				random.Random(case['seed'] + 17).shuffle(order)    # row (primary key) order is unrelated to membership and to signature order
+			for j in order:
+				g = genomes[j]
 				obj = Genome(key=g['key'], description=f'desc {j}', ncbi_db='assembly',
 				             ncbi_id=None if (null_j == j and attr == 'ncbi_id') else g['ncbi_id'],
 				             genbank_acc=None if (null_j == j and attr == 'genbank_acc') else g['genbank_acc'],
@@ -125,6 +129,7 @@ def run_case(case, ctx):
 					s.add(AnnotatedGenome(genome=obj, genome_set=gset, taxon=taxon, organism='org'))
 				else:
 					s.add(obj)
+				s.flush()
 			s.commit()
 		engine.dispose()
 		ids = [e[0] for e in entries]
@@ -246,6 +251,7 @@ def gen_case(draw, tier):
 		'small_ints': draw(st.booleans()),
 		'gdb_ext': draw(st.sampled_from(['.gdb', '.db'])),
 		'gs_ext': draw(st.sampled_from(['.gs', '.h5'])),
+		'shuffle_rows': draw(st.sampled_from([True, True, False])),
 		'extra_files': draw(st.lists(st.sampled_from(['README.txt', 'notes', 'x.gs.bak', 'y.gdb~', 'z.fasta', 'w.hdf5', 'v.sqlite']), max_size=3, unique=True)),
 	}
 
